@@ -702,6 +702,21 @@ pub fn gen_case(seed: u64, shard: u64, run: u64, t: &Tier) -> Option<(Case, &'st
         let dup = steps[k];
         steps.insert(k, dup);
     }
+    // a pivot in place now and then: the same tool-centre position with another orientation
+    // (position-only reasoning about "the same pose" and rotation-only interpolation are what it
+    // exercises), together with fine check steps
+    let mut pv = Rng::derive(seed, shard, run, "c12.pivot");
+    let pivot = pv.chance(0.1);
+    if pivot && !steps.is_empty() {
+        let k = pv.below(steps.len());
+        let p = steps[k];
+        let axis = nalgebra::Unit::new_normalize(nalgebra::Vector3::new(pv.range_f64(-1.0, 1.0), pv.range_f64(-1.0, 1.0), pv.range_f64(-1.0, 1.0) + 1e-3));
+        let turn = nalgebra::UnitQuaternion::from_axis_angle(&axis, pv.range_f64(5.0, 40.0f64).to_radians() * if pv.chance(0.5) { 1.0 } else { -1.0 });
+        let r = nalgebra::UnitQuaternion::from_quaternion(nalgebra::Quaternion::new(p[3], p[4], p[5], p[6])) * turn;
+        steps.insert(k + 1, [p[0], p[1], p[2], r.w, r.i, r.j, r.k]);
+    }
+    let fine_rad = if pv.chance(if pivot { 0.6 } else { 0.05 }) { Some(pv.range_f64(0.05, 0.3f64).to_radians()) } else { None };
+    let fine_m = if pv.chance(0.05) { Some(0.001) } else { None };
     let mut cfgs = Vec::new();
     let rng_seed = simctx::mix(&[seed, shard, run, simctx::name_hash("c12.rng")]);
     let rrt_step = w.range_f64(1.0, 10.0f64).to_radians();
@@ -747,8 +762,14 @@ pub fn gen_case(seed: u64, shard: u64, run: u64, t: &Tier) -> Option<(Case, &'st
         land,
         steps,
         park,
-        check_step_m: *w.pick(&[0.005, 0.01, 0.02, 0.05, 0.1]),
-        check_step_rad: w.range_f64(1.0, 15.0f64).to_radians(),
+        check_step_m: {
+            let v = *w.pick(&[0.005, 0.01, 0.02, 0.05, 0.1]);
+            fine_m.unwrap_or(v)
+        },
+        check_step_rad: {
+            let v = w.range_f64(1.0, 15.0f64).to_radians();
+            fine_rad.unwrap_or(v)
+        },
         max_transition_cost: w.range_f64(1.0, 30.0f64).to_radians(),
         recursion_depth: w.below(9),
         include_lin: w.chance(0.5),
